@@ -93,6 +93,7 @@ def run(ctx):
                "%s::rdlen(compress = true) announces a length although compose_rdata compresses %s on a compressing "
                "target: the advertised RDLENGTH differs from the octets written" % (adt.split("::")[-1], names), where=rb.where())
     rule_fwd(ctx, F)
+    rule_conv(ctx, F)
     # the reader of a variable-layout field accepts exactly what its writer can produce (shared rules)
     import c01
     import c11
@@ -627,4 +628,53 @@ def rule_fwd(ctx, F):
                 ctx.ob(R, b, "forwards to the same method", callee == it["name"],
                        "impl %s for %s: %s forwards to %s of the wrapped type" % (tr.split("::")[-1], im["self_ty"], it["name"], callee),
                        b.where(bi), nontrivial=False)
+    ctx.call_sites += n
+
+
+CONVERTERS = re.compile(r"::(convert_octets|flatten|try_octets_from|octets_from|flatten_into|try_flatten_into|to_owned|into_owned)(::<.*>)?$")
+
+
+def rule_conv(ctx, F):
+    """Record data changes its octets / name type (convert_octets, flatten, OctetsFrom ..) without changing its value:
+    in every such conversion of a record-data type, each field of the value built comes from the field of the same
+    name of the source -- whether the result is a struct literal or goes through a constructor whose parameter-to-
+    field map is read from the constructor's own body."""
+    R = "C05.conv"
+    ctx.floor(R, 150)
+    n = 0
+    for p, b in sorted(F.bodies.items()):
+        if "::test" in p or not re.match(r"^<?rdata::", p) or not CONVERTERS.search(p.split("::{closure")[0]):
+            continue
+        if "{closure" in p:
+            continue
+        targets = []     # (block, [(dst field, term)])
+        for bi in sorted(b.reachable_blocks()):
+            if b.blocks[bi].get("c"):
+                continue
+            for st in b.blocks[bi]["s"]:
+                if st[0] == "=" and st[2][0] == "agg" and st[2][1][0] == "adt" and str(st[2][1][1]).startswith("rdata::") \
+                        and len(st[2][1]) > 3 and st[2][1][3] and len(st[2][1][3]) >= 2:
+                    targets.append((bi, [(f, b.term_of_operand(o)) for f, o in zip(st[2][1][3], st[2][2])]))
+            t = b.blocks[bi]["t"]
+            if t["k"] == "call" and t["fn"] and re.search(r"^rdata::.*::(new|new_unchecked|new_impl)(::<.*>)?$", t["fn"]) and len(t["args"]) >= 2:
+                fm = sigs.ctor_field_map(F, t["res"] or t["fn"])
+                if fm:
+                    targets.append((bi, [(fm[i + 1], b.term_of_operand(a)) for i, a in enumerate(t["args"]) if (i + 1) in fm]))
+        for bi, pairs in targets:
+            for dst, tm in pairs:
+                srcs = set()
+                for s_ in walk(deep_strip(tm)):
+                    if s_[0] == "field":
+                        base = deep_strip(s_[1])
+                        while base[0] in ("deref", "ref"):
+                            base = deep_strip(base[1])
+                        if base[0] == "arg" and not str(s_[2]).isdigit():
+                            srcs.add(str(s_[2]))
+                if not srcs:
+                    continue
+                n += 1
+                ctx.ob(R, b, "field %s <- %s" % (dst, "/".join(sorted(srcs))), srcs == {str(dst)},
+                       "%s builds field `%s` of the converted value from field(s) %s of the source: the conversion changes the "
+                       "value (two fields of the same type swapped or one used twice) although it should only change the octets / "
+                       "name type" % (p, dst, sorted(srcs)), b.where(bi))
     ctx.call_sites += n
